@@ -301,7 +301,12 @@ template<class T, std::size_t S>
 void small_vector<T, S>::push_back(const T &x)
 {
   if (size_ == capacity_)
+  {
+    T copy(x);  // `x` may refer to an element of this vector
     grow();
+    new (size_++) T(std::move(copy));  // after `grow()` data is on the heap
+    return;
+  }
 
   if (local_storage_used())
     *size_ = x;
@@ -315,7 +320,12 @@ template<class T, std::size_t S>
 template<class... Args> void small_vector<T, S>::emplace_back(Args &&... args)
 {
   if (size_ == capacity_)
+  {
+    T elem(std::forward<Args>(args)...);  // `args` may refer to own elements
     grow();
+    new (size_++) T(std::move(elem));  // after `grow()` data is on the heap
+    return;
+  }
 
   if (local_storage_used())
     *size_ = T(std::forward<Args>(args)...);
